@@ -11,7 +11,9 @@ CLAIMS = {
                      "_handle_zero_length_slice over 17 slice shapes (literal/templated/escaped/comment/blocks, loops = backward jump, "
                      "skipped branches = forward jump) x <=4 lexed elements: templated slices tile the rendering with len(raw)==slice "
                      "length, source slices in bounds and non-decreasing (reset at loop markers), every source offset covered by a token "
-                     "or placeholder, template indents balance, one LXR error per unlexable token.",
+                     "or placeholder, template indents balance, one LXR error per unlexable token; (5) whole PythonTemplater.process + lexer "
+                     "position mapping on every <=3-piece format template (literal/field pieces, empty and repeated renderings): every "
+                     "source offset is covered.",
                 note="Assumes the TemplatedFile tiling invariant (C07) and that trim patterns are maximal runs (X+; checked "
                      "syntactically). The content of the ~150 dialect regexes (which text becomes which token) is outside. "
                      "Known finding F18 (token spanning a loop jump) is excluded by pattern."),
@@ -91,18 +93,23 @@ CLAIMS = {
                 text="Bounded model checking of the real patch pipeline (generate_source_patches filter, merge_source_patches, "
                      "_slice_source_file_using_patches, _build_up_fixed_source_string) for ALL source lengths, slice boundaries, "
                      "patch positions and replacement texts within a bounded number of raw slices/patches/variants: no applied edit "
-                     "touches a non-literal raw slice unless it is a source edit naming exactly that slice.",
+                     "touches a non-literal raw slice unless it is a source edit naming exactly that slice. Plus the real "
+                     "templated_slice_to_source_slice over the 17 slice shapes with symbolic lengths and an arbitrary in-bounds "
+                     "templated slice: the result is in bounds, ordered and covers the slices the input touches.",
                 note="Assumes the patch stream contract (start<=stop<=len; source patches name one non-literal slice) and C07 tiling; "
                      "which patches real rules emit is outside the claim. Trusted: z3, the proxy layer (validated by replay)."),
     "C11": dict(design_ref="§3 C10/C11/C30", technique=SYM,
                 text="Same pipeline harness: the output equals the source outside the applied edit ranges for every source/patch "
-                     "configuration in the bound; with nothing applied the output is the source and fix_string reports no change.",
+                     "configuration in the bound; with nothing applied the output is the source and fix_string reports no change. Encoding: real get_encoding "
+                     "with a symbolic file length and offset of the first non-ASCII byte (autodetect reads enough of the file to see it).",
                 note="Text is opaque (RopeStr): equality means equal for every content of the base texts. Encoding layer: see evidence."),
     "C24": dict(design_ref="§3 C24", technique=SYM + " (schedule = symbolic permutation enumerated through solver-decided forks)",
                 text="Real ParallelRunner.run/_apply, Linter.lint_paths assembly, LintedDir.add, LintingResult.as_records/stats on 3 "
                      "(thorough 4) real SQL files with a pool whose results return in EVERY completion order and with every order of "
                      "the path arguments; every task/result crosses a real pickle round trip (FluffConfig.__getstate__/__setstate__): "
-                     "records, per-directory stats, violation count and exit code equal the serial run's.",
+                     "records, per-directory stats, violation count and exit code equal the serial run's, for 3 warnings "
+                     "configurations. Templated: 3 jinja files under nested .sqlfluff files with different templater contexts, all path "
+                     "orders through the real sequential runner and all completion orders through the parallel runner agree.",
                 note="Narrow: OS scheduling, real worker processes and fix-mode writes are outside."),
     "C25": dict(design_ref="§3 C25", technique=SYM + " (choices solver-forked; a REAL temp tree is built per explored path)",
                 text="Real paths_from_path/_iter_files_in_path/_check_ignore_specs/_iter_config_files on a 3-level tree with a "
@@ -117,14 +124,17 @@ CLAIMS = {
                      "direct open/write) of every kind (OSError, KeyboardInterrupt, half-written buffer then OSError, process death in "
                      "a forked child) the target holds the complete old or complete new content, no temp file remains after a raised "
                      "error, success keeps mode and BOM, a suffix leaves the original untouched. persist_tree writes only when a "
-                     "fixable violation exists and the text changed.",
+                     "fixable violation exists and the text changed, to stem+suffix+ext even when the stem already ends with the suffix.",
                 note="Power loss / fsync durability semantics of the kernel are outside."),
     "C27": dict(design_ref="§3 C27", technique=SYM + " (choices solver-forked; REAL config files in a temp tree per explored path)",
                 text="Real load_config_up_to_path / load_config_file_as_dict(@cache) / FluffConfig.from_root, make_child_from_path, "
                      "set_value, process_raw_file_for_config with HOME and cwd redirected: for every choice of which of 7 layers "
                      "(appdir, home, cwd, proj, proj/sub, extra config, overrides) sets which of two keys (<=2, thorough 3 layers at "
                      "once) the winner is the highest-precedence layer; an inline directive wins for that file only; mutating one "
-                     "file's config never changes a sibling's, a cousin's or the root config. nested_combine over 3 dicts: later wins, "
+                     "file's config never changes a sibling's, a cousin's or the root config. Inline isolation: 7 directive kinds "
+                     "(core, indentation, layout, rules:<rule>:<option>, templater) x 6 routes (parse_string, lint_string, simple API, "
+                     "lint_paths, child config, copy) x 0..2 earlier decorated files leave the shared configuration mapping and a later "
+                     "undecorated file's violations unchanged. nested_combine over 3 dicts: later wins, "
                      "sections merge, outputs share no mutable object with inputs.",
                 note="toml/pyproject files, path-valued settings and plugin defaults are outside."),
     "C28": dict(design_ref="§3 C28", technique=SYM + " (finite shape space enumerated through solver-decided forks)",
@@ -171,16 +181,19 @@ CLAIMS = {
                      "<=2 directives x <=2 violations (thorough 3x2, 2x3) with UNBOUNDED symbolic line numbers, every action (plain/"
                      "disable/enable), rule set (all/{A}/{B}/{A,B}) and code (A/B/PRS): a violation is hidden iff a plain directive on "
                      "its line covers it or the most recent covering range directive at or before its line is a disable; unused "
-                     "warnings exactly for plain/disable directives that hid nothing; with no mask nothing is hidden.",
-                note="Reference model written independently in the harness. _parse_noqa's string parsing and which comments the tree "
-                     "crawl yields are outside (CrossHair on _parse_noqa was probed in the design phase but is not part of this check)."),
+                     "warnings exactly for plain/disable directives that hid nothing; with no mask nothing is hidden. Real _parse_noqa on "
+                     "every comment made of <=3 tokens, and 'noqa:' + <=4 tokens, from a token alphabet (codes, globs, names, PRS, "
+                     "commas, spaces, disable=/enable=, all): action and rule tuple equal an independent reference parser.",
+                note="Reference models written independently in the harness. Which comments the tree crawl yields is outside."),
     "C21": dict(design_ref="§3 C21", technique=SYM + " (finite configuration space enumerated through solver-decided forks)",
                 text="Real RuleSet.get_rulepack/_expand_rule_refs/rule_reference_map over a register of 3 stub rules with forked names, "
                      "groups and aliases (incl. code/name, name/group and group/alias collisions) and <=1 (thorough 2) allow and deny "
                      "selectors (codes, names, groups, aliases, globs, unknown): instantiated codes == (union of matched allow) minus "
-                     "(union of matched deny) under precedence code > name > group > alias. Independence: lint_fix_parsed(fix=False) hands "
+                     "(union of matched deny) under precedence code > name > group > alias. Glob selectors: every selector of <=3 "
+                     "(thorough 4) tokens from {A,B,0,1,*,?,[AB],.} as rules or as exclude_rules equals fnmatchcase over the reference "
+                     "map. Comma-separated selector lists (<=4 tokens incl. separators/blank/newline) split and strip exactly. Independence: lint_fix_parsed(fix=False) hands "
                      "every enabled rule the identical tree and reports the concatenation of their violations for all 8 subsets.",
-                note="That a crawl does not mutate the tree is assumed, not checked; comma-separated value splitting is outside."),
+                note="That a crawl does not mutate the tree is assumed, not checked."),
     "C22": dict(design_ref="§3 C22", technique=SYM + FORK,
                 text="lint: exit 1 iff some violation is neither suppressed nor a warning (real LintedDir.add + LintingResult.stats). "
                      "fix by path and via stdin: exit 1 iff an unsuppressed non-warning violation remains unfixable (incl. fixes discarded "
@@ -193,16 +206,22 @@ CLAIMS = {
                      "PositionMarker, SQLBaseError/SQLLintError/SQLParseError.to_dict, LintFix.to_dict incl. all edit types and the "
                      "single-fix hoisting) over a source of unbounded length with K symbolic newline positions and arbitrary in-bounds "
                      "anchor slices: line/col lie in the file, equal the reference for the anchor's first source character, and every "
-                     "start/end offset agrees with its line/col.",
+                     "start/end offset agrees with its line/col; also with one character that str.splitlines() treats as a line break "
+                     "but is not a newline.",
                 note="Assumes anchors carry in-bounds source slices (C01 kernel). That a rule anchors the right segment is outside."),
     "C31": dict(design_ref="§3 C31", technique=SYM,
                 text="For texts with exactly K newlines (K<=6 quick, <=12 thorough) of UNBOUNDED length and every offset, the real "
                      "iter_indices_of_newlines + get_line_pos_of_char_pos (source and templated tables) and infer_next_position equal "
-                     "the reference (1 + newlines before offset, offset - last newline).",
+                     "the reference (1 + newlines before offset, offset - last newline); also with one non-LF line-break character; and on "
+                     "one real-constructed TemplatedFile whose source and rendered texts have independent newline layouts an arbitrary "
+                     "earlier lookup (any offset, either text) does not change the next lookup.",
                 note="Text abstracted to length + newline positions (the only observations these functions make)."),
     "C33": dict(design_ref="§3 C33", technique=SYM,
                 text="Real deduplicate_in_source_space + source_signature over N<=3 (thorough 4) violations with symbolic line/col, code, "
-                     "description, fix text and source fix: output sorted by (line, col), no two equal signatures, every input signature kept.",
+                     "description, fix text and source fix: output sorted by (line, col), no two equal signatures, every input signature kept. "
+                     "Call site: real Linter.lint_parsed on a real ParsedString with or without a root variant, 2 (thorough 3) violations "
+                     "placed by fork among templating / per-variant parse / root-variant lint / alternate-variant lint results: the "
+                     "LintedFile's violations are sorted and unique.",
                 note="Violation objects are real SQLLintError/SQLParseError with duck-typed rule/segment/fix stubs."),
     "C32": dict(design_ref="§3 C32", technique=SYM + " (operation sequence solver-forked; real files; fresh-subprocess baseline)",
                 text="Narrow: every sequence of 2 (thorough 3) operations (lint / parse / render) over 5 real files (plain, jinja blocks, "
@@ -213,7 +232,8 @@ CLAIMS = {
                 note="'Never opens a file for writing' is a syntactic fact, not a solver question; fix mode is outside."),
     "C34": dict(design_ref="§3 C34", technique=SYM,
                 text="load_raw_file_and_config with symbolic file size and byte limit, large_file_check with symbolic length and char "
-                     "limit (both unbounded): skipped iff limit != 0 and size > limit, a skipped file is never opened/processed. Real "
+                     "limit (both unbounded), the root config carrying an independent symbolic limit: skipped iff the FILE's limit != 0 "
+                     "and size > that limit, a skipped file is never opened/processed. Real "
                      "SequentialRunner/ParallelRunner (main-process and worker-side skip paths) over every oversized subset of 3 files: "
                      "skipped files are counted once and never linted. cli._paths_fix: exit 1 on skip only with large_file_skip_fail.",
                 note="os.path.getsize, config and open are stubs; the lint command's inline tail is represented by the same two lines."),
